@@ -620,3 +620,170 @@ def c16_check(prop, tier, seed, replay):
 
 
 CHECKS["C16"] = c16_check
+
+
+# ----------------------------------------------------------------------------- C11 / C12: cluster
+CLUSTER_TRACE_CFG = """SPECIFICATION TraceSpec
+CONSTANTS
+  Dev = @DEV@
+  Meaning <- TraceMeaning
+  Followers = {"f1", "f2"}
+  CAlphabet = {}
+  MaxChan = 100000
+@INV@
+POSTCONDITION TraceAccepted
+CHECK_DEADLOCK FALSE
+"""
+CLUSTER_MEANING = {"gg1": {"gg": [["a", "#"]], "lw": []}, "gg2": {"gg": [["b"], ["k", "?"]], "lw": []},
+                   "lw1": {"gg": [], "lw": [{"k": ["b"], "v": "w"}]}, "lw2": {"gg": [], "lw": [{"k": ["k", "cas"], "v": "w2"}, {"k": ["n"], "v": "w3"}]}}
+
+
+def cluster_scenarios(tier, rnd, promote):
+    keys = [["a"], ["a", "b"], ["b"], ["k", "cas"], ["k", "x"], ["n"]]
+    n = (6 if tier == "quick" else 120)
+    scs = []
+    for _ in range(n):
+        ops, conn, joined = [], [], []
+        clients = ["c1", "c2", "c3"]
+        fs = ["f1", "f2"] if rnd.random() < 0.3 else ["f1"]
+        join_at = {f: rnd.randint(0, 14) for f in fs}
+        steps = rnd.randint(12, 30)
+        for i in range(steps):
+            for f in fs:
+                if join_at[f] == i:
+                    ops.append({"op": "join", "f": f})
+                    joined.append(f)
+            r = rnd.random()
+            c = rnd.choice(clients)
+            if c not in conn:
+                conn.append(c)
+                ops.append({"op": "req", "r": {"op": "connect", "c": c, "proto": "TCP", "addr": "j:null"}})
+                continue
+            k = rnd.choice(keys)
+            if r < 0.3:
+                q = {"op": "set", "key": k, "val": rnd.choice(["v1", "v2", "v3"]), "c": c}
+            elif r < 0.45:
+                q = {"op": "cset", "key": k, "val": rnd.choice(["v1", "v2"]), "ver": rnd.choice([0, 0, 1, 2, 5]), "c": c}
+            elif r < 0.53:
+                q = {"op": "delete", "key": k, "c": c}
+            elif r < 0.6:
+                q = {"op": "pdelete", "pat": rnd.choice([["a", "#"], ["k", "?"], ["?"], ["a", "?"]]), "c": c}
+            elif r < 0.68:
+                q = {"op": "set", "key": ["$SYS", "clients", c, "graveGoods"], "val": rnd.choice(["gg1", "gg2"]), "c": c}
+            elif r < 0.76:
+                q = {"op": "set", "key": ["$SYS", "clients", c, "lastWill"], "val": rnd.choice(["lw1", "lw2"]), "c": c}
+            elif r < 0.82:
+                e = rnd.choice([{"k": "cas", "v": "v7", "n": rnd.choice([0, 2, 7])}, {"k": "plain", "v": "v8", "n": 0}])
+                q = {"op": "import", "tree": [{"p": [], "e": {"k": "none", "v": "", "n": 0}}, {"p": ["k"], "e": {"k": "none", "v": "", "n": 0}},
+                                               {"p": ["k", "cas"], "e": e}]}
+            elif r < 0.92:
+                conn.remove(c)
+                q = {"op": "disconnect", "c": c}
+            else:
+                q = {"op": "set", "key": ["$SYS", "x"], "val": "v1", "c": c}      # refused on the leader, never forwarded
+            ops.append({"op": "req", "r": q})
+            if joined and rnd.random() < 0.25:
+                ops += [{"op": "sync"}, {"op": "probe"}]
+                if rnd.random() < 0.3:
+                    ops.append({"op": "fwrite", "f": rnd.choice(joined)})
+        for f in fs:
+            if f not in joined:
+                ops.append({"op": "join", "f": f})
+                joined.append(f)
+        ops += [{"op": "sync"}, {"op": "probe"}]
+        if promote:
+            ops.append({"op": "promote", "f": rnd.choice(joined)})
+        scs.append(ops)
+    return scs
+
+
+def cluster_check(promote):
+    def run(prop, tier, seed, replay):
+        known = [f for f in vlib.known_flags()]
+        build_s = vlib.build_harness()
+        d = vlib.workdir(prop)
+        known_seen, violations = {}, []
+        rnd = random.Random(seed)
+        inv = "INVARIANTS C11Inv C12Inv"
+
+        def run_files(batches, tag):
+            def one(ib):
+                i, scs = ib
+                req = os.path.join(d, f"req_{tag}{i}.ndjson")
+                tr = os.path.join(d, f"tr_{tag}{i}.ndjson")
+                with open(req, "w") as f:
+                    f.write(json.dumps({"hdr": True, "meaning": CLUSTER_MEANING}) + "\n")
+                    for j, ops in enumerate(scs):
+                        if j:
+                            f.write('{"op":"reset"}\n')
+                        for o in ops:
+                            f.write(json.dumps(o) + "\n")
+                    f.write('{"op":"reset","final":true}\n')
+                vlib.run_harness(["cluster-run", req, tr, os.path.join(d, f"dirs_{tag}{i}")], timeout=3000)
+                # the harness ends with a reset record; drop trailing resets
+                lines = open(tr).read().splitlines()
+                while lines and lines[-1].startswith('{"op":"reset"'):
+                    lines.pop()
+                open(tr, "w").write("\n".join(lines) + "\n")
+                r = vlib.validate(d, "Trace_Cluster", CLUSTER_TRACE_CFG, tr, inv, known, 1200)
+                r["req"], r["trace"], r["n"], r["scs"] = req, tr, len(lines) - 1, scs
+                return r
+            return vlib.parallel(one, list(enumerate(batches)), nproc=4)
+
+        def handle(res, tag):
+            for r in res:
+                if r["status"] == "known":
+                    for f in r["flags"]:
+                        known_seen[f] = known_seen.get(f, 0) + 1
+                elif r["status"] == "violation":
+                    det = r.get("detail", {})
+                    recno = rejected_recno(det)
+                    payload = {"property": prop, "kind": "cluster-scenario", "detail": det}
+                    if recno:
+                        tl = open(r["trace"]).read().splitlines()
+                        nres = sum(1 for x in tl[1:recno] if x.startswith('{"op":"reset"'))
+                        payload["scenario"] = r["scs"][nres] if nres < len(r["scs"]) else r["scs"]
+                        payload["observed_tail"] = [json.loads(x) for x in tl[max(1, recno - 6):recno]]
+                    else:
+                        payload["scenario"] = r["scs"][0]
+                    p = vlib.save_replay(prop, f"{tag}_{len(violations)}", payload)
+                    violations.append({"replay": p, "what": det.get("rejected") or det.get("error")})
+
+        if replay:
+            pl = json.load(open(replay))
+            res = run_files([[pl["scenario"]]], "replay")
+            handle(res, "replay")
+            return {"known": known_seen, "violations": violations}
+
+        t1 = time.time()
+        st = {"distinct": 0, "generated": 0}
+        if not os.environ.get("VERIF_DEV_SKIP_MC"):
+            out = vlib.tlc(d, "MC_C11", mc_cfg("MC_C11.cfg" if tier == "quick" else "MC_C11_thorough.cfg", []), workers=8, timeout=6000, heap="12g")
+            err, st = vlib.tlc_error(out), vlib.tlc_stats(out)
+            if err or not st:
+                raise ToolError("model checking of the ideal specification failed: %s\n%s" % (err, out[-3000:]))
+        log(f"[{prop}] TLC Cluster (intended design): {st['distinct']} distinct states, {st['generated']} transitions, {time.time()-t1:.0f}s")
+        scs = cluster_scenarios(tier, rnd, promote)
+        nb = 4
+        t2 = time.time()
+        res = run_files([scs[i::nb] for i in range(nb) if scs[i::nb]], "b")
+        handle(res, "b")
+        nrec = sum(r["n"] for r in res)
+        for i in range(nb):
+            shutil.rmtree(os.path.join(d, f"dirs_b{i}"), ignore_errors=True)
+        log(f"[{prop}] {len(scs)} leader/follower histories on real in-process servers, {nrec} records validated, {time.time()-t2:.0f}s")
+        cov = {"states": max(1, st["distinct"]), "transitions": max(1, st["generated"]), "traces_validated_against_impl": len(scs),
+               "samples": [scs[0][:14]], "exhaustive": False, "trace_records_validated": nrec,
+               "explanation": "TLC exhaustive on the cluster model (all join points, all interleavings of forwarding and applying, promotion at every "
+                              "quiescent point) within the bounds; random leader histories on real servers connected through the TCP sync port, "
+                              "quiescence by marker key, read-back of both sides validated by TLC against Cluster.tla"}
+        return {"coverage": cov, "known": known_seen, "violations": violations,
+                "assumptions": ["leader and followers run in one process (spawn_worterbuch), connected through a real TCP sync port on 127.0.0.1",
+                                "client sessions are what tcp.rs makes of them: connected / requests under that id / disconnected on the WbApi handle",
+                                "a follower is configured exactly as the binary configures it from the role flags (Config::new(Some(Args{..})))",
+                                "leader loss only at quiescent points (marker reached every follower)"]}
+    return run
+
+
+CHECKS["C11"] = cluster_check(False)
+CHECKS["C12"] = cluster_check(True)
